@@ -178,6 +178,8 @@ Definition set_o (b : bool) (f : flags) := Flags b (f_h f) (f_v f).
 Definition set_h (b : bool) (f : flags) := Flags (f_o f) b (f_v f).
 Definition set_v (b : bool) (f : flags) := Flags (f_o f) (f_h f) b.
 
+(* list modes other than b: I (invite exceptions), e (ban exceptions), q (quiets) *)
+Definition LIST_MODES : list N := [73; 101; 113].
 Definition apply_mode (ch : schan) (chg : bool * N * option str) : schan :=
   let '(plus, f, arg) := chg in
   match arg with
@@ -186,6 +188,7 @@ Definition apply_mode (ch : schan) (chg : bool * N * option str) : schan :=
       else if N.eqb f H_ then upd_flags (set_h plus) a ch
       else if N.eqb f V_ then upd_flags (set_v plus) a ch
       else if N.eqb f B_ then set_bans_s ch (if plus then iset_add a (sc_bans ch) else iset_discard a (sc_bans ch))
+      else if mem f LIST_MODES then ch        (* invite / ban exceptions, quiets: lists the bot does not claim to know *)
       else set_modes_s ch (if plus then assoc_set f (Some a) (sc_modes ch) else assoc_del f (sc_modes ch))
   | None => set_modes_s ch (if plus then assoc_set f None (sc_modes ch) else assoc_del f (sc_modes ch))
   end.
@@ -198,7 +201,7 @@ Definition mode_ok (ch : schan) (chg : bool * N * option str) : bool :=
   | Some a =>
       valid_arg a &&
       (if mem f [O_; H_; V_] then is_member a ch
-       else N.eqb f B_ || N.eqb f 107 || (N.eqb f 108 && plus))
+       else N.eqb f B_ || mem f LIST_MODES || N.eqb f 107 || (N.eqb f 108 && plus))
   | None => mem f FLAGS || (N.eqb f 108 && negb plus)
   end.
 Fixpoint mode_string (chgs : list (bool * N * option str)) (last : option bool) : str :=
